@@ -33,7 +33,7 @@ CLAIMED = {
             "Accepted programs never reach a panic outcome of the evaluator model (Props/C06Accepted: all nine residual sites discharged from the lexer, parser and resolver models, for source text through the pipeline model; c06_pipeline_unconditional: the shipped pipeline model — lex, parse, resolve, analyses, run with the analyses' own plan — never reaches a panic outcome, for every source text; the plan condition is call-graph reachability (PlanReach), proved for the analysis model's plan on every output of the resolver model, and evaluated by the driver on the REAL plan and annotations of every accepted program; remaining explicit hypothesis: the number type parses digit lexemes); the model's panic sites are checked against a list regenerated from runtime.rs/builtins; the finite product of operator/condition/index/method sinks × runtime types × dynamic routes is executed completely on the real runtime each run.",
             "Trusted: Lean kernel, extractor of panic sites, harness worker isolation; NumLitsParse (str::parse::<f64> accepts digits and digits.digits) is an assumption on the number type.",
             "DESIGN.md §5 C06"),
-    "C07": (T_PROOF + ": lexer/parser totality (fuel adequacy) and span theorems (ordered, in range, on character boundaries) over the front-end models; correspondence on arbitrary UTF-8, truncations and token mutations",
+    "C07": (T_PROOF + ": lexer/parser totality (fuel adequacy) and span theorems (ordered, in range, on character boundaries) over the front-end models; pipeline-wide span safety and renderability (analysis warnings, limit warning, the runtime error a run ends with); correspondence on arbitrary UTF-8, truncations and token mutations",
             "For every UTF-8 text the lexer and parser models terminate, all token/AST/diagnostic/label spans are ordered, in range and on character boundaries; models tied to scanner.rs/parser.rs/resolver.rs by differential runs incl. renderer survival, with worker isolation for aborts.",
             "Trusted: Lean kernel, extractor of lexical tables, harness; nesting depth within the native stack is C08's subject.",
             "DESIGN.md §5 C07"),
